@@ -134,10 +134,27 @@ def check_export(params):
     # 2. through the library's own backend paths with an exact backend
     try:
         counts = c.get_counts(tketsim.ExactBackend())
-        gc = vector(counts, n_mid) @ classical_matrix(t.post_processing)
-        if not qref.close(gc, want):
-            bad("get_counts-backend", "get_counts(exact backend) = %r does not match the evaluation %s"
-                % (counts, np.round(want.real, 4).tolist()))
+        try:
+            direct = vector(counts, n_out)
+        except ValueError:
+            direct = None
+        if direct is None or not qref.close(direct, want):
+            # counting through a backend must agree with local evaluation.  One recorded defect:
+            # Circuit.get_counts(backend) never applies the classical post-processing that to_tk
+            # recorded (eval(backend) does) -- recognised exactly: there is a post-processing, and
+            # applying it to the returned counts gives the local evaluation
+            try:
+                gc = vector(counts, n_mid) @ classical_matrix(t.post_processing)
+            except ValueError:
+                gc = None
+            if gc is not None and len(t.post_processing) and qref.close(gc, want) and known_shape(c) is None:
+                out.append(("C13:get_counts:post-processing-not-applied",
+                            "%s: get_counts(exact backend) = %r is the distribution before the recorded classical "
+                            "post-processing %s; the local evaluation is %s"
+                            % (c, counts, t.post_processing, np.round(want.real, 4).tolist())))
+            else:
+                bad("get_counts-backend", "get_counts(exact backend) = %r does not match the evaluation %s"
+                    % (counts, np.round(want.real, 4).tolist()))
         ev = c.eval(tketsim.ExactBackend())
         eva = np.asarray(ev.array, dtype=complex).reshape(1, -1)
         if eva.shape != want.shape or not qref.close(eva, want):
@@ -304,6 +321,15 @@ def check_batch(params):
         closed, want = reference_distribution(c)
         n_mid = len(t.post_processing.dom)
         got = vector(counts[i], n_mid) @ classical_matrix(t.post_processing)
+        try:
+            direct = vector(counts[i], len(closed.cod))
+        except ValueError:
+            direct = None
+        if got.shape == want.shape and qref.close(got, want) and len(t.post_processing) \
+                and (direct is None or not qref.close(direct, want)):
+            out.append(("C13:get_counts:post-processing-not-applied",
+                        "batch get_counts: circuit #%d = %s is returned before its classical post-processing" % (i, c)))
+            break
         if got.shape != want.shape or not qref.close(got, want):
             out.append((_sig("batch-counts", params), "get_counts(%s) in one batch: circuit #%d = %s gets %s, "
                         "its own evaluation is %s" % (", ".join(map(str, cs)), i, c,
@@ -432,6 +458,7 @@ def run(ctx):
     E = lambda x: ("e", x)  # noqa
     noisy = "ClassicalGate('noisy', 1, 1, [0.9, 0.1, 0.2, 0.8])"
     witnesses = [
+        ("circuit", ("qubit",), ((E("Measure()"), 0), (E(noisy), 0))),
         ("circuit", ("qubit", "bit"), ((E(noisy), 1), (E("Measure(override_bits=True)"), 0))),
         ("circuit", ("qubit", "qubit"), ((E("H"), 0), (E("Measure(2)"), 0), (E("Bits(0)"), 0))),
         ("circuit", ("bit",), ((E(noisy), 0), (E("Copy()"), 0), (E("Bits(0)"), 2))),
